@@ -363,6 +363,36 @@ def run_combo(arg):
         shutil.rmtree(tmp, ignore_errors=True)
 
 
+def run_bundled_table(_):
+    """every row of the bundled RATE12 binding-energy table (read here by an own reader: first two columns of every
+    data line, whatever follows them) is the binding energy the ice species of that name reports - the end of the
+    documented lookup order must know every species the table lists"""
+    from ..harness.render import reset_globals, quiet
+
+    reset_globals()
+    from naunet.species import Species
+
+    table = read_rate12()
+    viols = []
+    n = 0
+    with quiet():
+        for name, eb in table.items():
+            try:
+                sp = Species("#" + name)
+            except Exception:
+                continue  # a name outside the default element list: not judged
+            n += 1
+            try:
+                got = sp.binding_energy
+            except Exception as e:
+                viols.append(("C11:bundled-table:row-unknown", f"rate12_binding_energy.dat lists {name} = {eb} K, but Species('#{name}').binding_energy raises {type(e).__name__}: {str(e)[:100]}", {"bundled_table": name}))
+                break
+            if got != eb:
+                viols.append(("C11:bundled-table:row-value", f"rate12_binding_energy.dat lists {name} = {eb} K, Species('#{name}').binding_energy is {got}", {"bundled_table": name}))
+                break
+    return n, viols
+
+
 def run_missing_eb(model):
     """an ice species without binding energy anywhere must raise, never render"""
     from ..harness.render import render, reset_globals, quiet
@@ -419,6 +449,9 @@ def run(ctx):
         for model, viols in pool.imap_unordered(guarded(run_missing_eb), MODELS):
             nval += 1
             ctx.absorb(viols)
+        for n, viols in pool.imap_unordered(guarded(run_bundled_table), [0]):
+            nval += n
+            ctx.absorb(viols)
     ctx.assumptions += [
         "model formulae: hh93/hh93i as implemented by Walsh et al. 2015, rr07/rr07x as UCLCHEM v1.3 (the sources the classes cite); numeric prefactors 4.57e4, 4.875e3, 1.64e-4, 16.71e-4, 3.02, 1.8 and the coverage/monolayer factors are taken on trust from those implementations",
         "species data (mass number from the composition, binding energy by the documented order user table > RATE12 table, yield user table > model default) are computed by the harness, not obtained from naunet",
@@ -437,6 +470,9 @@ def run(ctx):
 
 
 def replay(ctx, case):
+    if "bundled_table" in case:
+        ctx.absorb(run_bundled_table(0)[1])
+        return
     if "missing_eb" in case:
         _, v = run_missing_eb(case["missing_eb"])
         ctx.absorb(v)
